@@ -62,7 +62,66 @@ def certLoadDerF {γ : Type} (load : Bytes → LoadRes γ) : Nat → Bytes → P
          | f + 1 => certLoadDerF load f data.dropLast)
       else .error .spsdk
 
-def certLoadDer {γ : Type} (load : Bytes → LoadRes γ) (data : Bytes) : PyRes γ := certLoadDerF load data.length data
+/-- the retry loop in the general form the generator can express (`Generated.KeysTables.certPad…`): one trailing byte out of `pad` is
+    removed per failed attempt; `needsExtra = false` = the retry does not ask for the loader's `ExtraData` error kind (any `ValueError`) -/
+def certLoadDerG {γ : Type} (needsExtra : Bool) (pad : List Nat) (load : Bytes → LoadRes γ) : Nat → Bytes → PyRes γ
+  | fuel, data =>
+    let retry : PyRes γ :=
+      match data.getLast? with
+      | some b =>
+        if pad.contains b.toNat then
+          (match fuel with
+           | 0 => .error .spsdk
+           | f + 1 => certLoadDerG needsExtra pad load f data.dropLast)
+        else .error .spsdk
+      | none => .error .spsdk
+    match load data with
+    | .ok c => .ok c
+    | .fail => if needsExtra then .error .spsdk else retry
+    | .extraData => retry
+
+/-- `data.rstrip(pad)` -/
+def rstripBytes (pad : List Nat) (data : Bytes) : Bytes :=
+  (data.reverse.dropWhile (fun b => pad.contains b.toNat)).reverse
+
+/-- the variant "strip every trailing pad byte, then load once" (NOT what the code does: generated mode 1) -/
+def certLoadDerStrip {γ : Type} (pad : List Nat) (load : Bytes → LoadRes γ) (data : Bytes) : PyRes γ :=
+  match load (rstripBytes pad data) with
+  | .ok c => .ok c
+  | _ => .error .spsdk
+
+/-- `load_der_certificate(data)` of `Certificate.parse`, in the form the generator found in the source:
+    mode 0 = the retry loop (pad byte and error-kind test as generated), mode 1 = unconditional strip. -/
+def certLoadDer {γ : Type} (load : Bytes → LoadRes γ) (data : Bytes) : PyRes γ :=
+  if KeysTables.certPadMode = 0 then
+    certLoadDerG KeysTables.certPadNeedsExtraData KeysTables.certPadBytes load data.length data
+  else certLoadDerStrip KeysTables.certPadBytes load data
+
+/-! #### the DER loader as SPSDK sees it: the DECLARED length of the outer SEQUENCE decides between "too short", the element itself and
+    `ExtraData` (rust-asn1 `parse_single`: read one element — tag, definite minimal length of at most four octets, content — then
+    `ExtraData` if anything is left; checks made on the parsed certificate afterwards (`body`) are reached only without extra data) -/
+
+/-- total length (header + content) the leading SEQUENCE header declares; `none` = not a SEQUENCE header the decoder reads -/
+def derTotalLen : Bytes → Option Nat
+  | [] => none
+  | t :: rest =>
+    if t ≠ 0x30 then none
+    else match readLen rest with
+      | none => none
+      | some (l, rest') => some (1 + (rest.length - rest'.length) + l)
+
+/-- `x509.load_der_x509_certificate(data)`: `syn el` = the element's content parses as a Certificate structure,
+    `body el` = the certificate object (after the post-parse checks: version, …) -/
+def derLoad {γ : Type} (syn : Bytes → Bool) (body : Bytes → Option γ) (data : Bytes) : LoadRes γ :=
+  match derTotalLen data with
+  | none => .fail
+  | some n =>
+    if data.length < n then .fail
+    else if !syn (data.take n) then .fail
+    else if n < data.length then .extraData
+    else match body data with
+      | some c => .ok c
+      | none => .fail
 
 /-- `Certificate.parse(data)`: PEM loader for text containing `----`, else the stripping DER loader; `ValueError` → SPSDKError -/
 def certParse {γ : Type} (loadPem : Bytes → Option γ) (load : Bytes → LoadRes γ) (data : Bytes) : PyRes γ :=
